@@ -1,9 +1,12 @@
 package main
 
 // C01 / C07: programs over the core language with (vmark id value) in every evaluated
-// position.  `vdrive c01 gen <seed> <n> <depth>` prints stimuli
+// position.  `vdrive c01 gen <seed> <n> <depth> <profile>` prints stimuli
 //   {"id","defs":[{name,ps,body}],"ast":{...},"defsrc":[...],"src":"..."}
+// (profile "core" = C01 forms, "ctl" = the same with non-local exits, cleanups and errors: C07)
 // `vdrive c01` runs stimuli from stdin and prints start / mark / end events.
+//
+// The AST is the one spec/Core/Core.tla interprets; this file only chooses programs and renders them.
 
 import (
 	"bufio"
@@ -25,134 +28,384 @@ func init() { drivers["c01"] = c01 }
 type N = map[string]any
 
 type gen struct {
-	rng   *rand.Rand
-	mark  int
-	vctr  int
-	fctr  int
-	funcs []fdef // named functions available for calls
-	blocks    []string
-	bctr      int
-	inCleanup bool
-	inFunc    bool
-	body      bool
-	pb        bool
-	tid   int
+	rng    *rand.Rand
+	mark   int
+	vctr   int
+	fctr   int
+	funcs  []fdef   // named functions available for calls
+	blocks []string // blocks of the current function activation that may be left from here
+	tags   []string // tags of enclosing tagbodies in the current function activation
+	bctr   int
+	maker  string // name of a defined function that returns a closure counting up from its argument
+	ctl    bool // profile: generate non-local exits, cleanups, errors
+	noExit int  // > 0 while inside a position from which an exit is not generated (cleanup forms, binding init forms)
 }
 type fdef struct {
 	name  string
 	arity int
 }
 
-func I(n int) N        { return N{"k": "int", "v": n} }
-func lit(v N) N        { return N{"k": "lit", "v": v} }
+func I(n int) N          { return N{"k": "int", "v": n} }
+func lit(v N) N          { return N{"k": "lit", "v": v} }
+func nilV() N            { return N{"k": "nil"} }
 func (g *gen) fresh() string { g.vctr++; return fmt.Sprintf("v%d", g.vctr) }
-func (g *gen) m(e N) N { g.mark++; return N{"k": "mark", "id": g.mark, "e": e} }
+func (g *gen) m(e N) N   { g.mark++; return N{"k": "mark", "id": g.mark, "e": e} }
+func (g *gen) one(n int) bool { return g.rng.Intn(n) == 0 }
 
-// num generates an expression that evaluates to an int
-func (g *gen) bodyForm(d int, vars []string, parentBody bool) N {
-	g.body = parentBody
-	return g.num(d, vars)
+// exitForm returns a non-local exit that is legal here, or nil
+func (g *gen) exitForm(d int, vars []string) N {
+	if !g.ctl || g.noExit > 0 {
+		return nil
+	}
+	switch g.rng.Intn(6) {
+	case 0, 1:
+		if len(g.blocks) > 0 {
+			name := g.blocks[g.rng.Intn(len(g.blocks))]
+			return N{"k": "retfrom", "name": name, "e": g.num(d-1, vars)}
+		}
+	case 2:
+		// only the forward tags (suffix b) so that every generated program terminates
+		fwd := []string{}
+		for _, t := range g.tags {
+			if strings.HasSuffix(t, "b") {
+				fwd = append(fwd, t)
+			}
+		}
+		if len(fwd) > 0 && g.one(2) {
+			return N{"k": "go", "tag": fwd[g.rng.Intn(len(fwd))]}
+		}
+	case 3:
+		if g.one(3) {
+			return N{"k": "error", "class": "error"}
+		}
+	}
+	return nil
 }
 
-func (g *gen) num(d int, vars []string) N {
-	body := g.body
-	g.body = false
-	g.pb = body
-	if body && len(g.blocks) > 0 && !g.inCleanup && g.rng.Intn(5) == 0 {
-		return N{"k": "retfrom", "name": g.blocks[g.rng.Intn(len(g.blocks))], "e": g.num(d-1, vars)}
-	}
-	ch := g.rng.Intn(10)
-	switch {
-	case d <= 0 || ch < 2:
-		if len(vars) > 0 && g.rng.Intn(2) == 0 {
-			return N{"k": "var", "n": vars[g.rng.Intn(len(vars))]}
+// body generates a sequence of 1..3 forms in body position (the last one gives the value)
+func (g *gen) body(d int, vars []string) []any {
+	es := []any{}
+	for i := g.rng.Intn(3); i >= 0; i-- {
+		if x := g.exitForm(d, vars); x != nil && g.one(4) {
+			es = append(es, x)
+			continue
 		}
-		return lit(I(g.rng.Intn(10)))
-	case ch < 4:
-		return g.m(N{"k": "add", "a": g.num(d-1, vars), "b": g.num(d-1, vars)})
-	case ch < 5 && len(vars) > 0:
-		return g.m(N{"k": "setq", "n": vars[g.rng.Intn(len(vars))], "e": g.num(d-1, vars)})
-	case ch < 6:
-		c := g.cond(d-1, vars)
-		g.body = body
-		a := g.num(d-1, vars)
-		g.body = body
-		b := g.num(d-1, vars)
-		return N{"k": "if", "c": c, "a": a, "b": b}
+		es = append(es, g.num(d-1, vars))
+	}
+	return es
+}
+
+// num generates an expression that evaluates to an int (or leaves through an exit)
+func (g *gen) num(d int, vars []string) N {
+	if d <= 0 {
+		return g.leaf(vars)
+	}
+	if x := g.exitForm(d, vars); x != nil && g.one(12) {
+		return x
+	}
+	switch ch := g.rng.Intn(26); {
+	case ch < 3:
+		return g.leaf(vars)
+	case ch < 5:
+		op := []string{"add", "sub"}[g.rng.Intn(2)]
+		return g.m(N{"k": op, "a": g.num(d-1, vars), "b": g.num(d-1, vars)})
+	case ch < 6 && len(vars) > 0:
+		return g.m(N{"k": "setq", "n": vars[g.rng.Intn(len(vars))], "e": g.noex(func() N { return g.num(d-1, vars) })})
 	case ch < 7:
-		return g.let(d, vars, g.rng.Intn(2) == 0)
-	case ch < 8 && len(g.funcs) > 0:
+		return N{"k": "if", "c": g.cond(d-1, vars), "a": g.num(d-1, vars), "b": g.num(d-1, vars)}
+	case ch < 8:
+		k := []string{"when", "unless"}[g.rng.Intn(2)]
+		// the value is an int only when the body runs: wrap so that nil becomes 0
+		return g.orZero(N{"k": k, "c": g.cond(d-1, vars), "body": g.body(d-1, vars)})
+	case ch < 9:
+		cs := []any{}
+		for i := g.rng.Intn(3); i >= 0; i-- {
+			c := N{"c": g.cond(d-1, vars), "body": g.body(d-1, vars)}
+			if g.one(5) {
+				c = N{"c": g.m(g.num(d-1, vars)), "body": []any{}} // a clause with only a test: its value is the result
+			}
+			cs = append(cs, c)
+		}
+		cs = append(cs, N{"c": lit(N{"k": "t"}), "body": g.body(d-1, vars)})
+		return N{"k": "cond", "cs": cs}
+	case ch < 10:
+		cs := []any{}
+		for i, n := 0, 1+g.rng.Intn(2); i < n; i++ {
+			keys := []any{I(g.rng.Intn(4))}
+			if g.one(2) {
+				keys = append(keys, I(g.rng.Intn(4)))
+			}
+			cs = append(cs, N{"keys": keys, "dflt": false, "body": g.body(d-1, vars)})
+		}
+		cs = append(cs, N{"keys": []any{}, "dflt": true, "body": g.body(d-1, vars)})
+		return N{"k": "case", "e": g.m(N{"k": "lit", "v": I(g.rng.Intn(4))}), "cs": cs}
+	case ch < 12:
+		return g.let(d, vars, g.one(2))
+	case ch < 13:
+		return N{"k": "progn", "es": g.body(d-1, vars)}
+	case ch < 14:
+		es := []any{g.num(d-1, vars)}
+		for i := g.rng.Intn(2); i >= 0; i-- {
+			es = append(es, g.num(d-1, vars))
+		}
+		return N{"k": "prog1", "es": es}
+	case ch < 16 && len(g.funcs) > 0:
 		f := g.funcs[g.rng.Intn(len(g.funcs))]
 		args := make([]any, f.arity)
 		for i := range args {
 			args[i] = g.num(d-1, vars)
 		}
-		return g.m(N{"k": "call", "f": f.name, "args": args})
-	case ch >= 6 && ch < 9 && g.rng.Intn(2) == 0:
-		return g.ctl(d, vars)
-	case ch < 9:
-		// ((lambda (p) body) arg) via funcall
-		p := g.fresh()
-		saved := g.blocks
-		g.blocks = nil
-		lb := g.num(d-1, append(vars, p))
-		g.blocks = saved
-		return g.m(N{"k": "fcall", "f": N{"k": "lam", "ps": []any{p}, "body": []any{lb}}, "args": []any{g.num(d-1, vars)}})
-	default:
-		es := []any{}
-		for i := g.rng.Intn(2); i >= 0; i-- {
-			es = append(es, g.bodyForm(d-1, vars, body))
+		switch g.rng.Intn(3) {
+		case 0:
+			return g.m(N{"k": "fcall", "f": N{"k": "fnref", "name": f.name}, "args": args, "spread": false})
+		case 1:
+			// (apply #'f a (list b))
+			n := len(args)
+			last := N{"k": "list", "es": []any{args[n-1]}}
+			return g.m(N{"k": "fcall", "f": N{"k": "fnref", "name": f.name}, "args": append(append([]any{}, args[:n-1]...), last), "spread": true})
 		}
-		return N{"k": "let", "bs": []any{}, "body": es}
+		return g.m(N{"k": "call", "f": f.name, "args": args})
+	case ch < 17:
+		return g.closure(d, vars)
+	case ch < 18 && g.maker != "":
+		a, b := g.fresh(), g.fresh()
+		call := func(f string) N {
+			return g.m(N{"k": "fcall", "f": N{"k": "var", "n": f}, "args": []any{g.num(d-2, vars)}, "spread": false})
+		}
+		mk := func() N { return N{"k": "call", "f": g.maker, "args": []any{g.noex(func() N { return g.num(d-2, vars) })}} }
+		return N{"k": "letx", "bs": []any{N{"n": a, "e": mk()}, N{"n": b, "e": mk()}},
+			"body": []any{call(a), call(b), call(a), g.m(N{"k": "add", "a": call(b), "b": call(a)})}}
+	case ch < 20:
+		return g.loop(d, vars)
+	case ch < 21:
+		return g.mapcar(d, vars)
+	case ch < 22:
+		// (multiple-value-bind (a b) (values x y) body)
+		a, b := g.fresh(), g.fresh()
+		vf := g.noex(func() N { // the values form is not a body position: no exits are placed in it
+			vs := []any{g.num(d-1, vars)}
+			if g.one(2) {
+				vs = append(vs, g.num(d-1, vars))
+			}
+			return N{"k": "values", "es": vs}
+		})
+		bodyVars := append(append([]string{}, vars...), a)
+		return N{"k": "mvb", "vars": []any{a, b}, "e": vf, "body": g.body(d-1, bodyVars)}
+	case ch < 23:
+		// (car (cdr (list ...))) and quoted data
+		es := []any{}
+		for i := 1 + g.rng.Intn(3); i > 0; i-- {
+			es = append(es, g.num(d-1, vars))
+		}
+		return g.m(N{"k": "car", "a": N{"k": "list", "es": es}})
+	default:
+		if g.ctl {
+			return g.control(d, vars)
+		}
+		return g.let(d, vars, g.one(2))
 	}
 }
 
-// control forms: block with possible return-from, unwind-protect with cleanup marks
-func (g *gen) ctl(d int, vars []string) N {
-	pb := g.pb
-	switch g.rng.Intn(2) {
+func (g *gen) noex(f func() N) N {
+	g.noExit++
+	defer func() { g.noExit-- }()
+	return f()
+}
+
+// orZero turns a possibly-nil value into an int: (or e 0)
+func (g *gen) orZero(e N) N { return N{"k": "or", "es": []any{e, lit(I(0))}} }
+
+func (g *gen) leaf(vars []string) N {
+	if len(vars) > 0 && g.one(2) {
+		return N{"k": "var", "n": vars[g.rng.Intn(len(vars))]}
+	}
+	return lit(I(g.rng.Intn(10)))
+}
+
+// a closure that captures (and sometimes updates) a variable of the binding it is created in, called once or twice
+func (g *gen) closure(d int, vars []string) N {
+	p, c, f := g.fresh(), g.fresh(), g.fresh()
+	savedB, savedT := g.blocks, g.tags
+	g.blocks, g.tags = nil, nil
+	inner := append(append([]string{}, vars...), c, p)
+	var lb []any
+	if g.one(2) {
+		lb = []any{g.m(N{"k": "setq", "n": c, "e": N{"k": "add", "a": N{"k": "var", "n": c}, "b": N{"k": "var", "n": p}}})}
+	} else {
+		lb = []any{g.num(d-2, inner)}
+	}
+	g.blocks, g.tags = savedB, savedT
+	lam := N{"k": "lam", "ps": []any{p}, "body": lb}
+	call := func() N {
+		return g.m(N{"k": "fcall", "f": N{"k": "var", "n": f}, "args": []any{g.num(d-2, append(append([]string{}, vars...), c))}, "spread": false})
+	}
+	body := []any{call()}
+	if g.one(2) {
+		body = append(body, call())
+	}
+	body = append(body, g.m(N{"k": "add", "a": N{"k": "var", "n": c}, "b": lit(I(0))}))
+	// (let* ((c init) (f (lambda (p) ...))) (funcall f x) ... c)
+	return N{"k": "letx", "bs": []any{N{"n": c, "e": g.noex(func() N { return g.num(d-2, vars) })}, N{"n": f, "e": lam}}, "body": body}
+}
+
+func (g *gen) mapcar(d int, vars []string) N {
+	p := g.fresh()
+	savedB, savedT := g.blocks, g.tags
+	g.blocks, g.tags = nil, nil
+	lb := g.num(d-2, append(append([]string{}, vars...), p))
+	g.blocks, g.tags = savedB, savedT
+	es := []any{}
+	for i := g.rng.Intn(4); i > 0; i-- {
+		es = append(es, g.num(d-2, vars))
+	}
+	var f N = N{"k": "lam", "ps": []any{p}, "body": []any{lb}}
+	if len(g.funcs) > 0 && g.one(3) {
+		for _, fd := range g.funcs {
+			if fd.arity == 1 {
+				f = N{"k": "fnref", "name": fd.name}
+			}
+		}
+	}
+	// (car (mapcar f (list ...))) -> int or nil
+	return g.orZero(g.m(N{"k": "car", "a": N{"k": "mapcar", "f": f, "l": N{"k": "list", "es": es}}}))
+}
+
+func (g *gen) loop(d int, vars []string) N {
+	acc := g.fresh()
+	v := []string{"i", "j", "k"}[g.rng.Intn(3)]
+	inner := append([]string{}, vars...) // nested forms see neither the loop variable nor the accumulator: termination by construction
+	saved := g.blocks
+	g.blocks = append(append([]string{}, g.blocks...), "nil")
+	defer func() { g.blocks = saved }()
+	step := g.m(N{"k": "setq", "n": acc, "e": N{"k": "add", "a": N{"k": "var", "n": acc}, "b": N{"k": "var", "n": v}}})
+	body := []any{step}
+	if g.one(2) {
+		body = append(body, g.body(d-2, inner)...)
+	}
+	if g.ctl && g.noExit == 0 && g.one(3) {
+		// leave the loop early: to the loop's own block nil or to an enclosing named block, from under a let
+		name := g.blocks[g.rng.Intn(len(g.blocks))]
+		y := g.fresh()
+		exit := N{"k": "retfrom", "name": name, "e": g.m(N{"k": "add", "a": N{"k": "var", "n": acc}, "b": N{"k": "var", "n": y}})}
+		guarded := N{"k": "when", "c": g.m(N{"k": "lt", "a": lit(I(g.rng.Intn(3))), "b": N{"k": "var", "n": acc}}), "body": []any{exit}}
+		body = append(body, N{"k": "let", "bs": []any{N{"n": y, "e": lit(I(10))}}, "body": []any{guarded}})
+	}
+	var lp N
+	outer := []any{N{"n": acc, "e": lit(I(0))}} // bindings of the let around the loop
+	switch g.rng.Intn(4) {
 	case 0:
+		es := []any{}
+		for i := g.rng.Intn(4); i > 0; i-- {
+			es = append(es, g.noex(func() N { return g.num(d-2, vars) }))
+		}
+		res := N{"k": "var", "n": acc}
+		if g.one(3) {
+			res = g.m(N{"k": "lit", "v": I(7)})
+		}
+		var lf N = N{"k": "list", "es": es}
+		if g.one(3) {
+			// the list form reads an outer variable that has the same name as the loop variable
+			outer = append(outer, N{"n": v, "e": lf})
+			lf = N{"k": "var", "n": v}
+		}
+		lp = N{"k": "dolist", "var": v, "l": lf, "res": res, "body": body}
+	case 1:
+		cnt := g.noex(func() N { return g.m(lit(I(g.rng.Intn(4)))) })
+		if g.one(3) {
+			outer = append(outer, N{"n": v, "e": cnt})
+			cnt = N{"k": "var", "n": v}
+		}
+		res := N{"k": "add", "a": N{"k": "var", "n": acc}, "b": N{"k": "var", "n": v}} // the result form sees the variable = count
+		lp = N{"k": "dotimes", "var": v, "c": cnt, "res": res, "body": body}
+	default:
+		// (do ((i 0 (+ i 1)) (w init (+ w i))) ((< lim i) result) body) ; do* sees the new i
+		star := g.one(2)
+		w := g.fresh()
+		lim := g.rng.Intn(4)
+		vs := []any{
+			N{"n": v, "init": g.noex(func() N { return g.m(lit(I(0))) }), "step": N{"k": "add", "a": N{"k": "var", "n": v}, "b": lit(I(1))}},
+			N{"n": w, "init": g.noex(func() N { return N{"k": "add", "a": N{"k": "var", "n": acc}, "b": lit(I(1))} }),
+				"step": g.m(N{"k": "add", "a": N{"k": "var", "n": w}, "b": N{"k": "var", "n": v}})},
+		}
+		test := N{"k": "lt", "a": lit(I(lim)), "b": N{"k": "var", "n": v}}
+		res := []any{g.m(N{"k": "add", "a": N{"k": "var", "n": w}, "b": N{"k": "var", "n": acc}})}
+		lp = N{"k": "do", "star": star, "vars": vs, "test": test, "res": res, "body": body}
+	}
+	// (let ((acc 0) [(v list-or-count)]) loop)
+	return N{"k": "let", "bs": outer, "body": []any{g.orZero(lp)}}
+}
+
+// control forms (C07): block with exits, unwind-protect with cleanup marks, tagbody, ignore-errors
+func (g *gen) control(d int, vars []string) N {
+	switch g.rng.Intn(5) {
+	case 0, 1:
 		g.bctr++
 		name := fmt.Sprintf("b%d", g.bctr)
-		g.blocks = append(g.blocks, name)
-		body := []any{}
-		for i := g.rng.Intn(3); i >= 0; i-- {
-			body = append(body, g.bodyForm(d-1, vars, pb))
-		}
-		g.blocks = g.blocks[:len(g.blocks)-1]
+		saved := g.blocks
+		g.blocks = append(append([]string{}, g.blocks...), name)
+		body := g.body(d-1, vars)
+		g.blocks = saved
 		return N{"k": "block", "name": name, "body": body}
-	default:
-		prot := g.bodyForm(d-1, vars, pb)
-		was := g.inCleanup
-		g.inCleanup = true
+	case 2:
+		prot := N{"k": "progn", "es": g.body(d-1, vars)}
+		g.noExit++
 		cl := []any{}
 		for i := g.rng.Intn(2); i >= 0; i-- {
 			cl = append(cl, g.m(lit(I(g.rng.Intn(10)))))
 		}
-		g.inCleanup = was
+		g.noExit--
+		if g.one(5) {
+			// a cleanup form that signals: the cleanup forms before it have run once, the ones after it never
+			at := g.rng.Intn(len(cl) + 1)
+			cl = append(cl[:at], append([]any{N{"k": "error", "class": "error"}}, cl[at:]...)...)
+			return g.orZero(N{"k": "ignerr", "body": []any{N{"k": "protect", "e": prot, "cleanup": cl}}})
+		}
 		return N{"k": "protect", "e": prot, "cleanup": cl}
+	case 3:
+		// (let ((c 0)) (tagbody s1 t1 s2 t2 s3) c) with forward and backward go, bounded by a counter
+		c := g.fresh()
+		g.bctr++
+		t1, t2 := fmt.Sprintf("t%da", g.bctr), fmt.Sprintf("t%db", g.bctr)
+		saved := g.tags
+		g.tags = append(append([]string{}, g.tags...), t1, t2)
+		inner := append([]string{}, vars...) // nested forms cannot reset the counter that bounds the backward jump
+		bump := g.m(N{"k": "setq", "n": c, "e": N{"k": "add", "a": N{"k": "var", "n": c}, "b": lit(I(1))}})
+		// backward jump guarded by the counter so that the loop ends
+		back := N{"k": "when", "c": N{"k": "lt", "a": N{"k": "var", "n": c}, "b": lit(I(3))}, "body": []any{N{"k": "go", "tag": t1}}}
+		stmts := []any{
+			N{"tag": "", "e": g.num(d-2, inner)},
+			N{"tag": t1, "e": bump},
+			N{"tag": "", "e": N{"k": "when", "c": g.cond(d-2, inner), "body": []any{N{"k": "go", "tag": t2}}}},
+			N{"tag": "", "e": g.num(d-2, inner)},
+			N{"tag": t2, "e": g.m(lit(I(5)))},
+			N{"tag": "", "e": back},
+		}
+		g.tags = saved
+		return N{"k": "let", "bs": []any{N{"n": c, "e": lit(I(0))}}, "body": []any{N{"k": "tagbody", "stmts": stmts}, N{"k": "var", "n": c}}}
+	default:
+		return g.orZero(N{"k": "ignerr", "body": g.body(d-1, vars)})
 	}
 }
 
 func (g *gen) cond(d int, vars []string) N {
-	switch g.rng.Intn(4) {
+	switch g.rng.Intn(5) {
 	case 0:
-		return g.m(lit(N{"k": "nil"}))
+		return g.m(lit(nilV()))
 	case 1:
 		return g.m(N{"k": "lt", "a": g.num(d-1, vars), "b": g.num(d-1, vars)})
 	case 2:
 		return N{"k": "and", "es": []any{g.cond(d-1, vars), g.m(N{"k": "lt", "a": g.num(d-1, vars), "b": lit(I(5))})}}
+	case 3:
+		return g.m(N{"k": "eq", "a": g.num(d-1, vars), "b": lit(I(g.rng.Intn(6)))})
 	default:
 		return N{"k": "or", "es": []any{g.m(N{"k": "lt", "a": g.num(d-1, vars), "b": lit(I(3))}), g.cond(d-1, vars)}}
 	}
 }
 
 func (g *gen) let(d int, vars []string, star bool) N {
-	pb := g.pb
 	n := 1 + g.rng.Intn(2)
 	bs := []any{}
 	nv := append([]string{}, vars...)
-	names := []string{}
 	pool := []string{"x", "y", "z"}
 	g.rng.Shuffle(len(pool), func(i, j int) { pool[i], pool[j] = pool[j], pool[i] })
 	for i := 0; i < n; i++ {
@@ -161,45 +414,74 @@ func (g *gen) let(d int, vars []string, star bool) N {
 		if star {
 			scope = nv
 		}
-		bs = append(bs, N{"n": name, "e": g.num(d-1, scope)})
+		sc := scope
+		bs = append(bs, N{"n": name, "e": g.noex(func() N { return g.num(d-1, sc) })})
 		nv = append(nv, name)
-		names = append(names, name)
-	}
-	body := []any{}
-	for i := g.rng.Intn(2); i >= 0; i-- {
-		body = append(body, g.bodyForm(d-1, nv, pb))
 	}
 	k := "let"
 	if star {
 		k = "letx"
 	}
-	return N{"k": k, "bs": bs, "body": body}
+	return N{"k": k, "bs": bs, "body": g.body(d-1, nv)}
 }
 
 // ---- render ----------------------------------------------------------
+func renderVal(v N) string {
+	switch v["k"] {
+	case "int":
+		return strconv.Itoa(v["v"].(int))
+	case "nil":
+		return "nil"
+	case "t":
+		return "t"
+	}
+	panic(fmt.Sprint("renderVal ", v))
+}
+
 func render(n N) string {
 	switch n["k"] {
 	case "lit":
-		v := n["v"].(N)
-		switch v["k"] {
-		case "int":
-			return strconv.Itoa(v["v"].(int))
-		case "nil":
-			return "nil"
-		}
+		return renderVal(n["v"].(N))
 	case "var":
 		return n["n"].(string)
 	case "setq":
 		return fmt.Sprintf("(setq %s %s)", n["n"], render(n["e"].(N)))
 	case "mark":
 		return fmt.Sprintf("(vmark %d %s)", n["id"], render(n["e"].(N)))
-	case "add":
-		return fmt.Sprintf("(+ %s %s)", render(n["a"].(N)), render(n["b"].(N)))
-	case "lt":
-		return fmt.Sprintf("(< %s %s)", render(n["a"].(N)), render(n["b"].(N)))
+	case "add", "sub", "lt", "eq", "cons":
+		op := map[string]string{"add": "+", "sub": "-", "lt": "<", "eq": "=", "cons": "cons"}[n["k"].(string)]
+		return fmt.Sprintf("(%s %s %s)", op, render(n["a"].(N)), render(n["b"].(N)))
+	case "car", "cdr":
+		return fmt.Sprintf("(%s %s)", n["k"], render(n["a"].(N)))
 	case "if":
 		return fmt.Sprintf("(if %s %s %s)", render(n["c"].(N)), render(n["a"].(N)), render(n["b"].(N)))
-	case "progn", "and", "or":
+	case "when", "unless":
+		return fmt.Sprintf("(%s %s%s)", n["k"], render(n["c"].(N)), rlist(n["body"].([]any)))
+	case "cond":
+		var b strings.Builder
+		b.WriteString("(cond")
+		for _, c := range n["cs"].([]any) {
+			cn := c.(N)
+			fmt.Fprintf(&b, " (%s%s)", render(cn["c"].(N)), rlist(cn["body"].([]any)))
+		}
+		return b.String() + ")"
+	case "case":
+		var b strings.Builder
+		fmt.Fprintf(&b, "(case %s", render(n["e"].(N)))
+		for _, c := range n["cs"].([]any) {
+			cn := c.(N)
+			if cn["dflt"].(bool) {
+				fmt.Fprintf(&b, " (t%s)", rlist(cn["body"].([]any)))
+				continue
+			}
+			var ks []string
+			for _, k := range cn["keys"].([]any) {
+				ks = append(ks, renderVal(k.(N)))
+			}
+			fmt.Fprintf(&b, " ((%s)%s)", strings.Join(ks, " "), rlist(cn["body"].([]any)))
+		}
+		return b.String() + ")"
+	case "progn", "and", "or", "prog1", "list", "values":
 		return "(" + n["k"].(string) + rlist(n["es"].([]any)) + ")"
 	case "let", "letx":
 		name := "let"
@@ -212,22 +494,71 @@ func render(n N) string {
 			bs = append(bs, fmt.Sprintf("(%s %s)", bn["n"], render(bn["e"].(N))))
 		}
 		return fmt.Sprintf("(%s (%s)%s)", name, strings.Join(bs, " "), rlist(n["body"].([]any)))
+	case "mvb":
+		var vs []string
+		for _, v := range n["vars"].([]any) {
+			vs = append(vs, v.(string))
+		}
+		return fmt.Sprintf("(multiple-value-bind (%s) %s%s)", strings.Join(vs, " "), render(n["e"].(N)), rlist(n["body"].([]any)))
 	case "block":
 		return fmt.Sprintf("(block %s%s)", n["name"], rlist(n["body"].([]any)))
 	case "retfrom":
+		if n["name"] == "nil" {
+			return fmt.Sprintf("(return %s)", render(n["e"].(N)))
+		}
 		return fmt.Sprintf("(return-from %s %s)", n["name"], render(n["e"].(N)))
 	case "protect":
 		return fmt.Sprintf("(unwind-protect %s%s)", render(n["e"].(N)), rlist(n["cleanup"].([]any)))
+	case "tagbody":
+		var b strings.Builder
+		b.WriteString("(tagbody")
+		for _, st := range n["stmts"].([]any) {
+			sn := st.(N)
+			if sn["tag"] != "" {
+				fmt.Fprintf(&b, " %s", sn["tag"])
+			}
+			fmt.Fprintf(&b, " %s", render(sn["e"].(N)))
+		}
+		return b.String() + ")"
+	case "go":
+		return fmt.Sprintf("(go %s)", n["tag"])
+	case "error":
+		return `(error "boom")`
+	case "ignerr":
+		return "(ignore-errors" + rlist(n["body"].([]any)) + ")"
 	case "lam":
 		var ps []string
 		for _, p := range n["ps"].([]any) {
 			ps = append(ps, p.(string))
 		}
 		return fmt.Sprintf("(lambda (%s)%s)", strings.Join(ps, " "), rlist(n["body"].([]any)))
+	case "fnref":
+		return "#'" + n["name"].(string)
 	case "fcall":
-		return fmt.Sprintf("(funcall %s%s)", render(n["f"].(N)), rlist(n["args"].([]any)))
+		name := "funcall"
+		if n["spread"].(bool) {
+			name = "apply"
+		}
+		return fmt.Sprintf("(%s %s%s)", name, render(n["f"].(N)), rlist(n["args"].([]any)))
 	case "call":
 		return fmt.Sprintf("(%s%s)", n["f"], rlist(n["args"].([]any)))
+	case "mapcar":
+		return fmt.Sprintf("(mapcar %s %s)", render(n["f"].(N)), render(n["l"].(N)))
+	case "dolist":
+		return fmt.Sprintf("(dolist (%s %s %s)%s)", n["var"], render(n["l"].(N)), render(n["res"].(N)), rlist(n["body"].([]any)))
+	case "dotimes":
+		return fmt.Sprintf("(dotimes (%s %s %s)%s)", n["var"], render(n["c"].(N)), render(n["res"].(N)), rlist(n["body"].([]any)))
+	case "do":
+		name := "do"
+		if n["star"].(bool) {
+			name = "do*"
+		}
+		var vs []string
+		for _, v := range n["vars"].([]any) {
+			vn := v.(N)
+			vs = append(vs, fmt.Sprintf("(%s %s %s)", vn["n"], render(vn["init"].(N)), render(vn["step"].(N))))
+		}
+		return fmt.Sprintf("(%s (%s) (%s%s)%s)", name, strings.Join(vs, " "), render(n["test"].(N)), rlist(n["res"].([]any)), rlist(n["body"].([]any)))
 	}
 	panic(fmt.Sprint("render ", n))
 }
@@ -255,11 +586,35 @@ func c01Project(o slip.Object) N {
 		return N{"k": "nil"}
 	case slip.Fixnum:
 		return N{"k": "int", "v": int(t)}
+	case slip.Symbol:
+		return N{"k": "sym", "v": string(t)}
+	case slip.String:
+		return N{"k": "str", "v": string(t)}
+	case slip.List:
+		if len(t) == 0 {
+			return N{"k": "nil"}
+		}
+		es := make([]any, len(t))
+		for i, e := range t {
+			es[i] = c01Project(e)
+		}
+		return N{"k": "list", "v": es}
 	}
 	if o == slip.True {
 		return N{"k": "t"}
 	}
 	return N{"k": "other", "s": slip.ObjectString(o)}
+}
+
+func c01Values(o slip.Object) []any {
+	if vs, ok := o.(slip.Values); ok {
+		out := make([]any, len(vs))
+		for i, v := range vs {
+			out[i] = c01Project(v)
+		}
+		return out
+	}
+	return []any{c01Project(o)}
 }
 
 func c01(args []string) {
@@ -269,8 +624,12 @@ func c01(args []string) {
 	}
 	out := h.NewOut()
 	defer out.Flush()
-	cur := 0
+	cur, budget := 0, 0
 	h.Define("vmark", func(s *slip.Scope, a slip.List, depth int) slip.Object {
+		if budget--; budget < 0 {
+			// generated programs terminate by construction; a run-away evaluation is cut here and reported
+			panic(fmt.Errorf("mark budget exceeded"))
+		}
 		out.Emit(N{"t": cur, "ev": "mark", "id": int(a[0].(slip.Fixnum)), "v": c01Project(a[1])})
 		return a[1]
 	})
@@ -280,19 +639,19 @@ func c01(args []string) {
 		if err := json.Unmarshal(line, &st); err != nil {
 			panic(err)
 		}
-		cur = st.ID
+		cur, budget = st.ID, 4000
 		out.Emit(N{"t": st.ID, "ev": "start", "defs": st.Defs, "ast": st.Ast})
 		for _, d := range st.DefSrc {
 			if o := h.Eval(s, d); !o.OK() {
-				out.Emit(N{"t": st.ID, "ev": "end", "v": N{"k": "err", "c": o.Class}, "src": d})
+				out.Emit(N{"t": st.ID, "ev": "end", "v": []any{N{"k": "err", "c": o.Class}}, "src": d, "msg": o.Msg})
 				return
 			}
 		}
 		o := h.Eval(s, st.Src)
 		if o.OK() {
-			out.Emit(N{"t": st.ID, "ev": "end", "v": c01Project(o.Val), "src": st.Src})
+			out.Emit(N{"t": st.ID, "ev": "end", "v": c01Values(o.Val), "src": st.Src})
 		} else {
-			out.Emit(N{"t": st.ID, "ev": "end", "v": N{"k": "err", "c": o.Class}, "src": st.Src})
+			out.Emit(N{"t": st.ID, "ev": "end", "v": []any{N{"k": "err", "c": o.Class}}, "src": st.Src, "msg": fmt.Sprintf("%.120s", o.Msg)})
 		}
 	})
 }
@@ -301,17 +660,21 @@ func c01Gen(args []string) {
 	seed, _ := strconv.Atoi(args[0])
 	ntr, _ := strconv.Atoi(args[1])
 	depth, _ := strconv.Atoi(args[2])
+	profile := "core"
+	if len(args) > 3 {
+		profile = args[3]
+	}
 	w := bufio.NewWriter(os.Stdout)
 	defer w.Flush()
 	enc := json.NewEncoder(w)
-	g := &gen{rng: rand.New(rand.NewSource(int64(seed)))}
+	g := &gen{rng: rand.New(rand.NewSource(int64(seed))), ctl: profile == "ctl"}
 	for t := 1; t <= ntr; t++ {
-		g.mark, g.funcs = 0, nil
+		g.mark, g.funcs, g.blocks, g.tags, g.maker = 0, nil, nil, nil, ""
 		var defs []any
 		var defsrc []string
 		for i := 0; i < 2; i++ {
 			g.fctr++
-			name := fmt.Sprintf("f%d-%d", seed, g.fctr)
+			name := fmt.Sprintf("f%s%d-%d", profile[:1], seed, g.fctr)
 			ar := 1 + g.rng.Intn(2)
 			ps := []string{}
 			pa := []any{}
@@ -320,17 +683,54 @@ func c01Gen(args []string) {
 				ps = append(ps, p)
 				pa = append(pa, p)
 			}
-			saved := g.blocks
-			g.blocks = nil
-			g.body = true
-			body := g.num(depth-2, ps)
-			g.blocks = saved
-			defs = append(defs, N{"name": name, "ps": pa, "body": []any{body}})
-			defsrc = append(defsrc, fmt.Sprintf("(defun %s (%s)%s)", name, strings.Join(ps, " "), rlist([]any{body})))
+			var body []any
+			if i == 1 && g.one(2) {
+				// a recursive function with a decreasing counter: (if (< p 1) base (+ p (f (- p 1) ...)))
+				self := []any{N{"k": "sub", "a": N{"k": "var", "n": ps[0]}, "b": lit(I(1))}}
+				for j := 1; j < ar; j++ {
+					self = append(self, N{"k": "var", "n": ps[j]})
+				}
+				// depth of the recursion is bounded: below 1 and above 6 the function returns at once
+				body = []any{N{"k": "if", "c": N{"k": "or", "es": []any{
+					N{"k": "lt", "a": N{"k": "var", "n": ps[0]}, "b": lit(I(1))},
+					N{"k": "lt", "a": lit(I(6)), "b": N{"k": "var", "n": ps[0]}}}},
+					"a": g.m(lit(I(g.rng.Intn(5)))),
+					"b": g.m(N{"k": "add", "a": N{"k": "var", "n": ps[0]}, "b": N{"k": "call", "f": name, "args": self}})}}
+			} else {
+				body = g.body(depth-2, ps)
+			}
+			defs = append(defs, N{"name": name, "ps": pa, "body": body})
+			defsrc = append(defsrc, fmt.Sprintf("(defun %s (%s)%s)", name, strings.Join(ps, " "), rlist(body)))
 			g.funcs = append(g.funcs, fdef{name, ar})
 		}
-		g.body = true
-		main := g.num(depth, nil)
+		{
+			// (defun mk (p) (lambda (q) (setq p (+ p q)))): each call makes a closure over a binding of its own
+			g.fctr++
+			name := fmt.Sprintf("mk%s%d-%d", profile[:1], seed, g.fctr)
+			p, q := g.fresh(), g.fresh()
+			lam := N{"k": "lam", "ps": []any{q}, "body": []any{g.m(N{"k": "setq", "n": p, "e": N{"k": "add", "a": N{"k": "var", "n": p}, "b": N{"k": "var", "n": q}}})}}
+			defs = append(defs, N{"name": name, "ps": []any{p}, "body": []any{lam}})
+			defsrc = append(defsrc, fmt.Sprintf("(defun %s (%s) %s)", name, p, render(lam)))
+			g.maker = name
+		}
+		if g.ctl {
+			// (defun r (n) (block b (unwind-protect (return-from b n) (mark) (when (< 0 n) (r (- n 1))))))
+			// the cleanup re-enters the function while the exit of the outer activation is still on its way
+			g.fctr++
+			name := fmt.Sprintf("rc%d-%d", seed, g.fctr)
+			p := g.fresh()
+			g.bctr++
+			bn := fmt.Sprintf("b%d", g.bctr)
+			body := []any{N{"k": "block", "name": bn, "body": []any{N{"k": "protect",
+				"e": N{"k": "retfrom", "name": bn, "e": g.m(N{"k": "var", "n": p})},
+				"cleanup": []any{g.m(lit(I(1))),
+					N{"k": "when", "c": N{"k": "and", "es": []any{N{"k": "lt", "a": lit(I(0)), "b": N{"k": "var", "n": p}}, N{"k": "lt", "a": N{"k": "var", "n": p}, "b": lit(I(4))}}},
+						"body": []any{N{"k": "call", "f": name, "args": []any{N{"k": "sub", "a": N{"k": "var", "n": p}, "b": lit(I(1))}}}}}}}}}}
+			defs = append(defs, N{"name": name, "ps": []any{p}, "body": body})
+			defsrc = append(defsrc, fmt.Sprintf("(defun %s (%s)%s)", name, p, rlist(body)))
+			g.funcs = append(g.funcs, fdef{name, 1})
+		}
+		main := N{"k": "progn", "es": g.body(depth, nil)}
 		_ = enc.Encode(N{"id": t, "defs": defs, "ast": main, "defsrc": defsrc, "src": render(main)})
 	}
 }
